@@ -508,6 +508,41 @@ t(lambda: int(x="12", y=1))
 t(lambda: len(obj=[1]))
 t(lambda: abs(x=1))
 '''))
+    # the default tables of a function object replaced after its definition (shorter, equal, LONGER than the parameter list: defaults stay right-aligned)
+    out.append(('defaults-reassigned', 'defaults-reassigned', '''
+def t(f):
+    try:
+        print(f())
+    except TypeError:
+        print("TypeError")
+def f(a, b=2, c=3):
+    return (a, b, c)
+def g(a=1, *s, k=1, **kw):
+    return (a, s, k, sorted(kw))
+h = lambda a, b=5: (a, b)
+for d in [(), (9,), (8, 9), (7, 8, 9), (6, 7, 8, 9), (5, 6, 7, 8, 9)]:
+    f.__defaults__ = d
+    g.__defaults__ = d
+    h.__defaults__ = d
+    t(lambda: f())
+    t(lambda: f(1))
+    t(lambda: f(1, 2))
+    t(lambda: f(c=0))
+    t(lambda: f(1, c=0))
+    t(lambda: f(b=1))
+    t(lambda: f(*[1]))
+    t(lambda: g())
+    t(lambda: g(1, 2))
+    t(lambda: g(k=3))
+    t(lambda: h())
+    t(lambda: h(1))
+    print(f.__defaults__)
+for kd in [{"k": 7}, {}, {"k": 1, "zz": 2}]:
+    g.__kwdefaults__ = kd
+    t(lambda: g())
+    t(lambda: g(k=0))
+    print(g.__kwdefaults__ == kd)
+'''))
     return [({'id': i, 'src': s.lstrip('\n')}, feat) for i, feat, s in out]
 
 
